@@ -105,7 +105,6 @@ func vtPhase(t *testing.T) {
 	})
 }
 
-
 // ---- end to end: fragments injected as IPv4 packets for a bound UDP socket ------------
 
 type dgram struct {
